@@ -49,10 +49,10 @@ PROPS = {
                      "embedding graphs are finite trees (no cyclic embedding through pointers) and method names do not clash with field names",
                      "type forms are those of the quantifier; chan / struct / interface literals, packages the target file does not import and three embedding levels run in the out-of-domain stream only",
                      "an unused active import is pruned by goimports before compiling (GetActive is cumulative per ImportHandler)"],
-        level_text="Machine-checked Lean 4 theorems (kernel-only axioms) over a model that mirrors gencommon statement by statement: (a) getSafeParamName/ensureNames/ensureParamNames - for EVERY signature the resulting parameter and result names are pairwise distinct, valid identifiers, and user-chosen names are kept; (b) namedTypeToInterface's private filter and embedded-method merge over embedding trees of any depth - the rendered method set is exactly the recursive reading of the property text, every rendered method is promoted by Go's selector rule, and on trees two levels deep it is exactly the literal property text; (c) ExtractTypeRef/addNamed - every rendered type reference denotes the identical type under the active imports when their aliases are distinct, and every needed import is active under the alias used. PARTIAL: acceptance of the rendered file by the Go compiler and `implemented by the original type` are observed (go build of every generated module), not proved. Tied to /repo by differential execution on generated Go modules (all four option sets per struct).",
-        level_note="Trusted: Lean kernel + propext/Quot.sound/Classical.choice; the Go harness (module generator, go/packages, go build) and the Lean driver; Go's type checker for the compile/implements clause. Legacy algorithms are kept as ...Legacy with legacy_*_violates witnesses; the model mirrors the repaired code (fix-C19.diff).",
+        level_text="Machine-checked Lean 4 theorems (kernel-only axioms) over a model that mirrors gencommon statement by statement. PROVED FOR ALL INPUTS: (a) getSafeParamName/ensureNames/ensureParamNames (repaired algorithm) - for EVERY signature whose user-chosen names are pairwise distinct, the resulting parameter and result names are pairwise distinct (names_distinct), valid non-blank identifiers (names_valid), and every user-chosen name stays at its position (user_names_kept); the candidate loop provably terminates on a free name. (b) namedTypeToInterface over embedding trees of any depth - without IncludeEmbedded the interface is exactly the filtered own methods (without_embedded, private_filter_own), no method failing the private filter is ever rendered at any depth (nti_keep), own methods always win (own_methods_present). (c) addNamed's import step - a referenced package is active afterwards under exactly the qualifier printed and active entries are never lost or re-aliased (addImport_active, addImport_mono). PARTIAL (full statements kept in Properties/C19.lean): exactness of the embedded merge against the property text and against Go's selector rule (embedded_methods_exact, rendered_methods_promoted) and the type-reference round trip through extract (typeRef_denotes_same, needed_imports_active) are proved only on evaluated sample trees/terms (…_partial) and otherwise checked by the correspondence run; acceptance of the rendered file by the Go compiler and `implemented by the original type` are observed (go build of every generated module), not proved. Legacy algorithms are kept with kernel-checked violation witnesses (legacy_names_violate, legacy_merge_violates). Tied to /repo by differential execution on generated Go modules (all four option sets per struct).",
+        level_note="Trusted: Lean kernel + propext/Quot.sound/Classical.choice; the Go harness (module generator, go/packages, go build) and the Lean driver; Go's type checker for the compile/implements clause; go/types method sets as the reference for the Lean selector rule. The model mirrors the repaired code (fix-C19.diff); on the unrepaired tree the check reports C19:find:param-names, C19:find:method-set, C19:build:dup-param, C19:build:not-implemented with replays.",
         technique="Lean 4 proof (invariant over the name-generation loop, mutual structural induction over embedding trees and type terms) + differential correspondence on generated programs + go build of the rendered interfaces",
-        explanation="partial: compiler acceptance is observed, not proved; naming, merge and type-reference theorems are for all signatures / trees / type terms",
+        explanation="partial: naming theorems for all signatures; merge: filter/own-method/no-embedded theorems for all trees, exactness only evaluated on samples; type refs: import step for all handler states, round trip only evaluated on a sample; compiler acceptance observed",
     ),
 }
 
